@@ -8,5 +8,5 @@ Extraction "builder.ml"
   BuilderModel.init_state BuilderModel.step BuilderModel.replay BuilderModel.trace BuilderModel.lookup
   BuilderModel.final_type_size BuilderModel.kInvalidArgument BuilderModel.kInvalidLabel BuilderModel.kInvalidSection BuilderModel.kLabelAlreadyBound BuilderModel.kInvalidOperandSize BuilderModel.kInvalidState BuilderModel.kSentinelFuncEnd
   BuilderModel.kOptReserved BuilderModel.kAlignData BuilderModel.kBaseOpCapacity BuilderModel.kFullOpCapacity BuilderModel.kTypeUInt8
-  BuilderModel.op_count BuilderModel.capacity_of
+  BuilderModel.op_count BuilderModel.capacity_of BuilderModel.replay_node
   X86Dec.emit_validated_x86 X86Dec.dec_x86 X86Sigs.x86_vtables.
